@@ -314,8 +314,16 @@ def gen_chs_cases(ctx: Ctx, n: int):
     return cases
 
 
+def sweep_chs_cases(ctx: Ctx):
+    """every point count 2..60 once (cheap settings) — particular lengths must not escape"""
+    rng = ctx.rng
+    return [{"kind": "chs", "dtype": "float64" if N % 3 else "float32", "N": N, "D": 1 + N % 3, "batch": [] if N % 2 else [2],
+             "interval": [0.5, 0.25, 0.4][N % 3], "pts": "randn", "scale": 1.0, "seed": rng.randrange(1 << 30)}
+            for N in range(2, 61)]
+
+
 def run_chs(ctx: Ctx, mb: MB, n: int):
-    for case in gen_chs_cases(ctx, n):
+    for case in (sweep_chs_cases(ctx) if n else []) + gen_chs_cases(ctx, n):
         check_chs(ctx, case, mb)
         ctx.note_case(("chs", case["dtype"], case["N"], case["D"], len(case["batch"]), case["interval"], case["pts"]),
                       case["pts"] != "const")
@@ -586,9 +594,24 @@ def gen_bs_cases(ctx: Ctx, n: int):
     return cases
 
 
+def sweep_bs_cases(ctx: Ctx):
+    """every pose count 1..60 (extrapolate) / 4..60 once; the model is consulted for the short ones only"""
+    rng = ctx.rng
+    out = []
+    for N in range(1, 61):
+        for ex in (True, False):
+            if not ex and N < 4:
+                continue
+            out.append({"kind": "bs", "dtype": "float64" if (N + ex) % 4 else "float32", "N": N, "batch": [] if N % 3 else [2],
+                        "interval": 0.5 if N % 2 else 0.4, "extrapolate": ex, "gen": "twist" if N % 2 else "walk",
+                        "rot": [0.3, 1.0, 2.0][N % 3], "tscale": 1.0, "flip": False, "continuity": 1 if N % 5 == 0 else 0,
+                        "model_cap": 24, "seed": rng.randrange(1 << 30)})
+    return out
+
+
 def run_bs(ctx: Ctx, mb: MB, n: int):
     P = pp()
-    for case in gen_bs_cases(ctx, n):
+    for case in (sweep_bs_cases(ctx) if n else []) + gen_bs_cases(ctx, n):
         check_bs(ctx, case, mb)
         ctx.note_case(("bs", case["dtype"], case["N"], len(case["batch"]), case["interval"], case["extrapolate"], case["gen"], case["rot"]),
                       case["N"] >= 2)
@@ -1205,6 +1228,13 @@ def check_rpe(ctx: Ctx, case, mb: MB, B, Tsvd, cond, ts, rnd) -> None:
     vals = stat_vals(res)
     m = len(pairs)
     check_order(ctx, case, f"rpe etype={rk['etype']}", vals)
+    ot = case["otype"]
+    try:
+        one = run_metric(A.rpe, B["rs"], B["rp"], B["es"], B["ep"], dtype, otype=ot, **kw)
+        if not isinstance(one, torch.Tensor) or one.dim() != 0 or not (float(one) == float(res[ot]) or (math.isnan(float(one)) and math.isnan(float(res[ot])))):
+            ctx.fail(pub(case), f"rpe-otype: otype={ot!r} returned {one!r}, the dictionary entry is {res[ot]!r}")
+    except Exception as e:
+        ctx.fail(pub(case), f"rpe-raises: rpe(otype={ot!r}) raised {excs(e)}")
     # discrete: pair ids of the real pair_id on the aligned trajectory
     try:
         with warnings.catch_warnings():
@@ -1340,10 +1370,10 @@ def run_traj(ctx: Ctx, mb: MB, n: int):
 def run(ctx: Ctx):
     torch.set_num_threads(2)
     mb = MB()
-    run_chs(ctx, mb, ctx.pick(70, 700))
-    run_bs(ctx, mb, ctx.pick(60, 500))
-    run_geo(ctx, mb, ctx.pick(80, 800))
-    run_traj(ctx, mb, ctx.pick(70, 700))
+    run_chs(ctx, mb, ctx.pick(90, 1000))
+    run_bs(ctx, mb, ctx.pick(70, 750))
+    run_geo(ctx, mb, ctx.pick(100, 1200))
+    run_traj(ctx, mb, ctx.pick(100, 1000))
     mb.flush(ctx)
 
 
